@@ -315,7 +315,7 @@ pub fn c05(rng: &mut Rng, _tier: &str, idx: usize) -> Case {
         };
         let a = gen_subset(rng, &ids, na);
         let b = if rng.chance(1, 8) { a.clone() } else { gen_subset(rng, &ids, nb) };
-        let spec = format!("{}{}", *rng.pick(&["s", "t", "t", "n", "n", "m", "u", "u", "v", "i", "j"]), rng.below(64));
+        let spec = format!("{}{}", *rng.pick(&["s", "t", "t", "n", "n", "m", "u", "u", "v", "i", "j", "w", "x"]), rng.below(64));
         c.op(format!("setsim 0 {} {} {} {}", spec, combs[(i + idx) % 3], ids_str(&a), ids_str(&b)));
         c.stat("set_pairs", 1);
         if spec.starts_with('i') || spec.starts_with('j') {
@@ -326,6 +326,30 @@ pub fn c05(rng: &mut Rng, _tier: &str, idx: usize) -> Case {
         }
         if a.is_empty() || b.is_empty() {
             c.stat("empty", 1);
+        }
+    }
+    // the two sets belong to two ontology OBJECTS (two releases): a second ontology holding some
+    // of the ids and a few of its own; every member is looked up in the ontology of its own set
+    {
+        let extra = gen_ids(rng, 3, &ids);
+        let mut ids2: Vec<u32> = ids.iter().copied().filter(|_| rng.chance(1, 2)).collect();
+        ids2.extend(extra.iter().copied());
+        c.op("new".to_string());
+        for t in &ids2 {
+            c.op(format!("term {} {}", t, name("second release")));
+        }
+        c.op("complete".to_string());
+        c.op("connect".to_string());
+        c.op("ic".to_string());
+        c.op("build min 7".to_string());
+        for i in 0..3usize {
+            let (na, nb) = (rng.range(1, 8) as usize, rng.range(1, 8) as usize);
+            let a = gen_subset(rng, &ids, na);
+            let mut b = gen_subset(rng, &ids2, nb);
+            b.push(extra[i]);
+            let spec = format!("{}{}", *rng.pick(&["s", "t", "n", "u", "w"]), rng.below(64));
+            c.op(format!("setsim2 0 7 {} {} {} {}", spec, combs[(i + idx) % 3], ids_str(&a), ids_str(&b)));
+            c.stat("set_pairs_across_two_ontologies", 1);
         }
     }
     // the caching adaptor: repeated and overlapping queries through one cache
@@ -342,7 +366,7 @@ pub fn c05(rng: &mut Rng, _tier: &str, idx: usize) -> Case {
                 qs.push((gen_subset(rng, &ids, na), gen_subset(rng, &ids, nb)));
             }
         }
-        let spec = format!("{}{}", *rng.pick(&["s", "t", "t", "t", "n", "n", "u", "v", "i", "j"]), rng.below(64));
+        let spec = format!("{}{}", *rng.pick(&["s", "t", "t", "t", "n", "n", "u", "v", "i", "j", "w", "x"]), rng.below(64));
         let toks: Vec<String> = qs.iter().map(|(a, b)| format!("{}:{}", ids_str(a), ids_str(b))).collect();
         c.op(format!("cachesim 0 {} {} {}", spec, rng.pick(&combs), toks.join(" ")));
         c.stat("cached_queries", nq as u64);
